@@ -146,6 +146,8 @@ func write(w io.Writer, tpl *Tpl, ctx *Ctx) (err error) {
 
 // General node renderer.
 func (t *Tpl) writeNode(w io.Writer, node *node, ctx *Ctx) (err error) {
+	// Every node starts with a clean slate: an error left by an earlier node must not fail this one.
+	ctx.Err = nil
 	switch node.typ {
 	case typeRaw:
 		err = t.writeRaw(w, node.raw, ctx)
@@ -200,6 +202,8 @@ func (t *Tpl) writeNode(w io.Writer, node *node, ctx *Ctx) (err error) {
 		}
 		ctx.noesc = false
 		if ctx.Err != nil {
+			// A failed modifier prints nothing; the error must not outlive the node.
+			ctx.Err = nil
 			return
 		}
 		if raw == nil || raw == "" {
